@@ -54,34 +54,24 @@ MCSpec == Init /\ [][MCNext]_vars
 
 Cr(cs, sig) == [cs |-> cs, sig |-> sig]
 CraftsQuick == {Cr({1, 3}, TRUE), Cr({4}, TRUE), Cr({5}, TRUE), Cr({6}, TRUE), Cr({7}, TRUE),
-                Cr({1, 2, 3}, TRUE), Cr({1}, FALSE)}
+                Cr({1, 2, 3}, TRUE), Cr({1, 2, 3, 4}, TRUE), Cr({1}, FALSE)}
 CraftsThorough == {Cr({o}, TRUE) : o \in 1..PoolSize}
                   \cup {Cr({1, 3}, TRUE), Cr({2, 3}, TRUE), Cr({3, 8}, TRUE), Cr({4, 5}, TRUE), Cr({1, 7}, TRUE),
                         Cr({1, 2, 3}, TRUE), Cr({1, 2, 3, 8}, TRUE), Cr({1}, FALSE), Cr({}, FALSE)}
 
-\* ---- known findings (see known_findings / lib/areas/register.py): the clause is checked modulo
-\* exactly these patterns, so that any other way of falsifying it is still reported by TLC.
-\* KF limit: a replica holding >= Limit entries (reached by add_op: exactly Limit; by merging: more)
-\*           is refused by verify with TooManyEntries.
+\* ---- known finding C06-merge-exceeds-entry-limit (known_findings.json; matcher in lib/areas/register.py):
+\* merge / verified_merge never check the size of the result, so a replica can come to hold more than
+\* Limit entries (only by merging: add_op stops at Limit), and verify then refuses it with
+\* TooManyEntries.  The closure clause is checked modulo exactly this pattern, so that any other way of
+\* falsifying it is still reported by TLC.
 ClosureModKnown ==
     /\ \A r \in Replicas :
           \A res \in VerifyRes(Pool, base[r], ops[r], Cnt(r), Limit) :
-              C06_Closure(res) \/ (res = "TooManyEntries" /\ Cnt(r) >= Limit)
+              C06_Closure(res) \/ (res = "TooManyEntries" /\ Cnt(r) > Limit)
     /\ \A r, s \in Replicas : (r # s /\ SameBase(base[r], base[s])) =>
           \A res \in VMergeRes(Pool, base[r], base[s], ops[s], Cnt(s), Limit) :
               \/ C06_ClosureMerge(res, Cardinality(ops[r] \cup ops[s]) <= Limit)
-              \/ (res = "TooManyEntries" /\ Cnt(s) >= Limit)
-\* KF address: an operation whose only defect is that it was made for another register is let in.
-OnlyAddress(b, o) == Reasons(Pool, b, o) = {"address"}
-AuthorisedStepModKnown ==
-    \A r \in Replicas :
-       /\ \A o \in ops'[r] \ ops[r] : Valid(Pool, base[r], o) \/ OnlyAddress(base[r], o)
-       /\ (out'.a = "AddOp" /\ out'.r = r /\ ~Valid(Pool, base[r], out'.o)) =>
-              \/ out'.res # "Ok" /\ ops'[r] = ops[r]
-              \/ OnlyAddress(base[r], out'.o)
-       /\ (out'.a \in {"Merge", "VerifiedMerge"} /\ out'.r = r /\ ~SameBase(base[r], base[out'.s])) =>
-              (out'.res # "Ok" /\ ops'[r] = ops[r])
-AuthorisedModKnown == [][AuthorisedStepModKnown]_vars
+              \/ (res = "TooManyEntries" /\ Cnt(s) > Limit)
 
 \* ---- scenarios (simulation runs, MaxDepth > 0): the history of every behaviour that has made
 \* MaxDepth calls, with the model's results
@@ -89,14 +79,13 @@ Emit == IF "SCN" \in DOMAIN IOEnv /\ MaxDepth > 0 /\ Len(hist) = MaxDepth
         THEN CSVWrite("%1$s", <<ToJson([bases |-> base, pad |-> lim, steps |-> hist])>>, IOEnv.SCN)
         ELSE TRUE
 
-\* ---- the clauses without the known-finding masks (MCRegister_raw_*.cfg): TLC must find the known
-\* findings in the model itself; the counterexample is written as a scenario and replayed on the code
+\* ---- the closure clause without the known-finding mask (MCRegister_raw_closure.cfg): TLC must find
+\* the known finding in the model itself; the counterexample is written as a scenario and replayed on
+\* the code
 EmitCex(h) == IF "CEX" \in DOMAIN IOEnv
               THEN CSVWrite("%1$s", <<ToJson([bases |-> base, pad |-> TRUE, steps |-> h])>>, IOEnv.CEX)
               ELSE TRUE
 ClosureRaw == Closure \/ (EmitCex(hist) /\ FALSE)
-AuthorisedRawStep == AuthorisedStep \/ (EmitCex(hist') /\ FALSE)
-AuthorisedRaw == [][AuthorisedRawStep]_vars
 
 ASSUME IF "POOL" \in DOMAIN IOEnv
        THEN ndJsonSerialize(IOEnv.POOL, <<[pool |-> MCPool, limit |-> Limit,
